@@ -139,6 +139,12 @@ def ob_allow_list(report):
         def m_collect(ex, p, call, k):
             src = call.args[0]
             el = None
+            if isinstance(src, Ptr) and call.short.endswith('into_iter'):
+                # `for x in &container`: a finite iterator over the known elements, yielding references
+                c = ex.deref(p, src)
+                if isinstance(c, Sym) and c.get_ov('elements') is not None:
+                    return k(p, Agg('SliceIter', None, (c.get_ov('elements'), z3.BitVecVal(0, 64), z3.BoolVal(False)), 'struct'))
+                return NotImplemented
             if isinstance(src, Sym) and src.get_ov('elements') is not None:
                 el = src.get_ov('elements')
             elif isinstance(src, Agg) and src.kind == 'array':
@@ -149,7 +155,7 @@ def ob_allow_list(report):
         models = [(r'Request::peer_id$', m_peer_id), (r'as IntoResponse>::into_response$', m_into_response),
                   (r'(HashSet|BTreeSet|Vec|slice)::contains$|HashSet::get$', m_contains),
                   (r'as IntoIterator>::into_iter$|Iterator>::collect$|FromIterator>::from_iter$|Iterator>::copied$|Iterator>::cloned$', m_collect)]
-        ex = e2.executor('anemo-tower', models, max_depth=4)
+        ex = e2.executor('anemo-tower', models, max_depth=4, unroll=80)
         new = find_method(ex.prog, 'AllowedPeers', 'new')
         auth = find_method(ex.prog, 'AllowedPeers', 'authorize', trait='AuthorizeRequest')
         outs = []
@@ -171,7 +177,12 @@ def ob_allow_list(report):
         has = z3.Bool('has_sender')
         member = z3.Or(sender == a, sender == b)
         seen = set()
+        SETOK = re.compile(r'(sort|sort_unstable|sort_by|sort_by_key|sort_unstable_by|sort_unstable_by_key|dedup|shrink_to_fit|reserve|with_capacity|new|len|is_empty|iter|contains|get|deref|deref_mut|as_slice|as_mut_slice|capacity|binary_search)$')
         for q, ret in outs:
+            # operations on the list other than those that keep its *set* of elements: outside the finite-set contract
+            odd = [e.name for e in q.events if e.kind == 'call' and re.search(r'(^|::)(Vec|slice|HashSet|BTreeSet|VecDeque)::', str(e.name)) and not SETOK.search(str(e.name))]
+            if odd:
+                return ob.done([ex], 'inconclusive', f'the allow-list container is modified/read through {odd[0]}, which the finite-set contract does not cover', paths=len(outs))
             r = Result(q, ret, 'return')
             ms = [e for e in q.events if e.kind == 'membership']
             if not isinstance(ret, Agg) or ret.name != 'Result':
@@ -196,7 +207,8 @@ def ob_allow_list(report):
             qv, m, _ = e2.solve(q.pc + [z3.Not(cond)])
             ex.queries += 1
             if qv != 'unsat':
-                cex = {'sender_present': z3.is_true(m.eval(has, True)), 'sender': hex(m.eval(sender, True).as_long())[:20] + '..',
+                cex = {'sender_present': z3.is_true(m.eval(has, True)), 'sender': '%064x' % m.eval(sender, True).as_long(),
+                       'list': ['%064x' % m.eval(a, True).as_long(), '%064x' % m.eval(b, True).as_long()],
                        'listed': z3.is_true(m.eval(member, True)), 'outcome': cls} if m is not None else {}
                 return viol(ob, [ex], f'allow-list outcome `{cls}` outside its condition: {cex}', f'allow-{cls}', {'counterexample': cex, **path_summary(r)}, len(outs))
             seen.add(cls)
@@ -204,7 +216,7 @@ def ob_allow_list(report):
             return ob.done([ex], 'inconclusive', f'vacuity: {seen}', paths=len(outs))
         ob.done([ex], 'held', '', {'paths': len(outs), 'list': '[a, b] symbolic 256-bit ids'}, paths=len(outs))
     return guarded(report, 'allow_list_exact', 'AllowedPeers::new([a,b]).authorize(req): Ok iff the authenticated sender is a or b; NotFound for any other sender; InternalServerError without a sender identity',
-                   ['AllowedPeers::new', 'AllowedPeers::authorize'], {'list_size': 2, 'ids': '256-bit symbolic', 'HashSet': 'finite-set model (collect/contains)'}, body)
+                   ['AllowedPeers::new', 'AllowedPeers::authorize'], {'list_size': 2, 'ids': '256-bit symbolic (byte-addressable, big-endian)', 'containers': 'finite-set model (collect/contains/sort/dedup); hand-written scans executed, loop_unroll 80'}, body)
 
 
 def ob_layer(report):
